@@ -185,6 +185,21 @@ Definition rtail_ok (lim : limits) (s : rst) : bool :=
 Definition rclean_st (s : rst) : bool :=
   match rpayload s with Some p => rclean p | None => true end.
 
+(* ... or it did, and the bytes y that follow are read the same way as without the boundary
+   (Proofs/HttpRespChunk.v, resume_c): after the optional CR that followed chunk data y does not start
+   with CR; after the last-chunk line y does not start with CR, or starts with a line of CRs only *)
+Definition rresume_st (s : rst) (y : bytes) : bool :=
+  match rpayload s with
+  | Some p => match y with [] => true | _ => rresume_ok p y end
+  | None => true
+  end.
+
+Lemma rclean_resume_st s y : rclean_st s = true -> rresume_st s y = true.
+Proof.
+  unfold rclean_st, rresume_st. destruct (rpayload s) as [p|]; [|reflexivity].
+  intro H. destruct y; [reflexivity|]. now apply rclean_resume.
+Qed.
+
 Definition rprepend (lo : bytes) (r : routcome) : routcome :=
   match r with OOk l => OOk (lo ++ l) | _ => r end.
 
@@ -225,8 +240,8 @@ Lemma rfstop_ok cfg s evs x s1 acc1 lo1 :
   rinv_f (s, evs) ->
   rstep_f cfg (s, evs) x = inr (s1, acc1, OOk lo1) ->
   rwf s1 /\
-  (rtail_ok (c_lim cfg) s1 = true -> rclean_st s1 = true ->
-   forall y f, (meas rmu_f (s, evs) (x ++ y) < f)%nat ->
+  (rtail_ok (c_lim cfg) s1 = true ->
+   forall y, rresume_st s1 y = true -> forall f, (meas rmu_f (s, evs) (x ++ y) < f)%nat ->
      robs (rfloop cfg f (s, evs) (x ++ y)) =
      robs (let '(s2, a2, r) := rfeed cfg s1 y acc1 in (s2, a2, rprepend lo1 r))).
 Proof.
@@ -235,7 +250,7 @@ Proof.
   { (* buffer exhausted *)
     cbn [rstep_f] in H. inversion H; subst. clear H. split.
     - split; [intro Hn; now elim Hn|assumption].
-    - intros _ _ y f Hf. rewrite robs_prepend_nil. rewrite rfeed_floop, Ht, (rclr_id _ Ht). cbn [app].
+    - intros _ y _ f Hf. rewrite robs_prepend_nil. rewrite rfeed_floop, Ht, (rclr_id _ Ht). cbn [app].
       f_equal. apply rfloop_fuel; [split; assumption|assumption|apply rmeas_f_fuel]. }
   cbn [rstep_f] in H. unfold rpwf in Hp.
   destruct (rpayload s) as [p|] eqn:Ep.
@@ -246,8 +261,8 @@ Proof.
     destruct (rfeed_payload_need _ _ _ _ _ _ Hp E) as (Hwp' & Hmt & Hres).
     split.
     + split; [intro Hn; now elim Hn|]. unfold rpwf. cbn [rpayload]. assumption.
-    + unfold rtail_ok, rclean_st. cbn [rpayload]. intros Hok Hcl y f Hf.
-      apply negb_true_iff in Hok. specialize (Hres Hok Hcl).
+    + unfold rtail_ok, rresume_st. cbn [rpayload]. intros Hok y Hcl f Hf.
+      apply negb_true_iff in Hok. specialize (Hres Hok).
       rewrite robs_prepend_nil. rewrite rfeed_floop. unfold rclr. cbn [rtail rlines rpayload rupgraded rpending_upgrade rshould_close rin_flight].
       rewrite Ht. cbn [app].
       destruct y as [|b y].
@@ -256,7 +271,7 @@ Proof.
       * destruct f as [|f]; [lia|].
         replace (2 * length (b :: y) + 2)%nat with (S (2 * length (b :: y) + 1)) by lia.
         unfold rfloop. cbn [loop]. cbn [rstep_f app rpayload]. rewrite Ep.
-        specialize (Hres (b :: y)). cbn [app] in Hres. rewrite Hres.
+        specialize (Hres (b :: y) Hcl). cbn [app] in Hres. rewrite Hres.
         destruct (rfeed_payload (c_lim cfg) p' (b :: y) acc1) as [p'' e2|rest e2|e e2] eqn:E2.
         -- destruct s; cbn in *; subst; reflexivity.
         -- cbn [rlines rtail rupgraded rpending_upgrade rshould_close rin_flight]. rewrite Ht.
@@ -270,7 +285,7 @@ Proof.
     { (* upgraded connection: everything is handed back *)
       inversion H; subst. clear H. split.
       - split; [intro Hn; now elim Hn|]. unfold rpwf. rewrite Ep. exact I.
-      - intros _ _ y f Hf. rewrite rfeed_floop, Ht, (rclr_id _ Ht). cbn [app].
+      - intros _ y _ f Hf. rewrite rfeed_floop, Ht, (rclr_id _ Ht). cbn [app].
         destruct f as [|f]; [lia|]. unfold rfloop. cbn [loop]. cbn [rstep_f app]. rewrite Ep, Eu.
         destruct y as [|b y]; cbn [loop length Nat.mul Nat.add rstep_f]; [reflexivity|].
         replace (length y + S (length y + 0) + 2)%nat with (S (length y + S (length y + 0) + 1)) by lia.
@@ -279,7 +294,7 @@ Proof.
     { (* message queue full: the whole buffer is kept *)
       inversion H; subst. clear H. split.
       - split; [intros _; split; reflexivity|exact I].
-      - intros _ _ y f Hf. rewrite robs_prepend_nil. rewrite rfeed_floop. unfold rclr.
+      - intros _ y _ f Hf. rewrite robs_prepend_nil. rewrite rfeed_floop. unfold rclr.
         cbn [rtail rlines rpayload rupgraded rpending_upgrade rshould_close rin_flight].
         destruct f as [|f]; [lia|].
         replace (2 * length ((a :: r) ++ y) + 2)%nat with (S (2 * length ((a :: r) ++ y) + 1)) by lia.
@@ -290,7 +305,7 @@ Proof.
     (* partial line kept *)
     dmH H; [discriminate|]. inversion H; subst. clear H. split.
     + split; [intros _; split; reflexivity|exact I].
-    + intros _ _ y f Hf. rewrite robs_prepend_nil. rewrite rfeed_floop. unfold rclr.
+    + intros _ y _ f Hf. rewrite robs_prepend_nil. rewrite rfeed_floop. unfold rclr.
       cbn [rtail rlines rpayload rupgraded rpending_upgrade rshould_close rin_flight].
       assert (Hs : mkRS (rlines s) [] None false (rpending_upgrade s) (rshould_close s) (rin_flight s) = s)
         by (destruct s; cbn in *; subst; reflexivity).
@@ -365,7 +380,7 @@ Qed.
 Theorem rfeed_split cfg s a b acc s1 acc1 lo1 :
   rwf s ->
   rfeed cfg s a acc = (s1, acc1, OOk lo1) ->
-  rtail_ok (c_lim cfg) s1 = true -> rclean_st s1 = true ->
+  rtail_ok (c_lim cfg) s1 = true -> rresume_st s1 b = true ->
   robs (rfeed cfg s (a ++ b) acc) =
   robs (let '(s2, acc2, r) := rfeed cfg s1 b acc1 in (s2, acc2, rprepend lo1 r)).
 Proof.
@@ -375,13 +390,13 @@ Proof.
   rewrite (loop_app _ _ (rstep_f cfg) rfdflt rmu_f rinv_f (rstep_f_dec cfg) (rstep_f_stable cfg)
              _ _ _ b _ (S (meas rmu_f (sk, ek) (xk ++ b))) (rinv_f_clr s acc Hw) (rmeas_f_fuel _ _)
              (rmeas_f_fuel _ _) _ _ E ltac:(lia)).
-  apply (Hres Hok Hcl b (S (meas rmu_f (sk, ek) (xk ++ b)))). lia.
+  apply (Hres Hok b Hcl (S (meas rmu_f (sk, ek) (xk ++ b)))). lia.
 Qed.
 
 Theorem rfeed_split_accept cfg s a b acc s1 acc1 lo1 s2 acc2 lo2 :
   rwf s ->
   rfeed cfg s a acc = (s1, acc1, OOk lo1) ->
-  rclean_st s1 = true ->
+  rresume_st s1 b = true ->
   rfeed cfg s1 b acc1 = (s2, acc2, OOk lo2) ->
   rfeed cfg s (a ++ b) acc = (s2, acc2, OOk (lo1 ++ lo2)).
 Proof.
@@ -411,7 +426,20 @@ Lemma rrun_segs_cons cfg s d segs a lo :
   end.
 Proof. reflexivity. Qed.
 
-(* every parser state at a read boundary that is followed by another read is clean *)
+(* at every read boundary that is followed by another read, the rest of the stream is read the same
+   way as without the boundary (rresume_st) *)
+Fixpoint rboundaries_safe (cfg : rcfg) (s : rst) (segs : list bytes) (a : racc) : bool :=
+  match segs with
+  | [] => true
+  | d :: segs' =>
+    match rfeed cfg s d a with
+    | (s', a', OOk _) =>
+      match segs' with [] => true | _ => rresume_st s' (concat segs') && rboundaries_safe cfg s' segs' a' end
+    | _ => true
+    end
+  end.
+
+(* in particular when every boundary state is clean *)
 Fixpoint rboundaries_clean (cfg : rcfg) (s : rst) (segs : list bytes) (a : racc) : bool :=
   match segs with
   | [] => true
@@ -423,8 +451,18 @@ Fixpoint rboundaries_clean (cfg : rcfg) (s : rst) (segs : list bytes) (a : racc)
     end
   end.
 
+Lemma rboundaries_clean_safe cfg : forall segs s a,
+  rboundaries_clean cfg s segs a = true -> rboundaries_safe cfg s segs a = true.
+Proof.
+  induction segs as [|d segs IH]; intros s a H; [reflexivity|].
+  cbn [rboundaries_clean rboundaries_safe] in *.
+  destruct (rfeed cfg s d a) as [[s1 a1] r1]. destruct r1; [|reflexivity].
+  destruct segs as [|e segs]; [reflexivity|].
+  apply andb_true_iff in H as [A B]. apply andb_true_iff. split; [now apply rclean_resume_st|now apply IH].
+Qed.
+
 Lemma rrun_segs_accept_cons : forall segs cfg s d acc lo s' acc' lo',
-  rwf s -> rboundaries_clean cfg s (d :: segs) acc = true ->
+  rwf s -> rboundaries_safe cfg s (d :: segs) acc = true ->
   rrun_segs cfg s (d :: segs) acc lo = (s', acc', OOk lo') ->
   rwf s' /\ rrun_segs cfg s [d ++ concat segs] acc lo = (s', acc', OOk lo').
 Proof.
@@ -433,10 +471,10 @@ Proof.
     rewrite rrun_segs_cons in H. destruct (rfeed cfg s d acc) as [[s1 a1] r1] eqn:E1.
     destruct r1; try discriminate. cbn [rrun_segs] in H. inversion H; subst.
     eapply rfeed_wf; eassumption.
-  - rewrite rrun_segs_cons in H. cbn [rboundaries_clean] in Hb.
+  - rewrite rrun_segs_cons in H. cbn [rboundaries_safe] in Hb.
     destruct (rfeed cfg s d acc) as [[s1 a1] r1] eqn:E1.
     destruct r1 as [l1|]; try discriminate.
-    apply andb_true_iff in Hb as [Hcl Hb].
+    apply andb_true_iff in Hb as [Hcl Hb]. cbn [concat] in Hcl.
     pose proof (rfeed_wf _ _ _ _ _ _ _ Hw E1) as Hw1.
     destruct (IH cfg s1 e a1 (lo ++ l1) s' acc' lo' Hw1 Hb H) as [Hw' H'].
     split; [assumption|].
@@ -448,7 +486,7 @@ Proof.
 Qed.
 
 Theorem rseg_accept cfg segs s acc lo s' acc' lo' :
-  rwf s -> segs <> [] -> rboundaries_clean cfg s segs acc = true ->
+  rwf s -> segs <> [] -> rboundaries_safe cfg s segs acc = true ->
   rrun_segs cfg s segs acc lo = (s', acc', OOk lo') ->
   rrun_segs cfg s [concat segs] acc lo = (s', acc', OOk lo').
 Proof.
@@ -474,10 +512,10 @@ Proof.
   - eapply rrun_segs_wf_cons; eassumption.
 Qed.
 
-(* two accepted segmentations of the same stream with clean boundaries are indistinguishable *)
+(* two accepted segmentations of the same stream with safe boundaries are indistinguishable *)
 Theorem rseg_indep_accept cfg segs1 segs2 s acc lo s1 acc1 lo1 s2 acc2 lo2 :
   rwf s -> segs1 <> [] -> segs2 <> [] -> concat segs1 = concat segs2 ->
-  rboundaries_clean cfg s segs1 acc = true -> rboundaries_clean cfg s segs2 acc = true ->
+  rboundaries_safe cfg s segs1 acc = true -> rboundaries_safe cfg s segs2 acc = true ->
   rrun_segs cfg s segs1 acc lo = (s1, acc1, OOk lo1) ->
   rrun_segs cfg s segs2 acc lo = (s2, acc2, OOk lo2) ->
   (s1, acc1, lo1) = (s2, acc2, lo2).
@@ -488,9 +526,9 @@ Proof.
   rewrite Hc in H1. rewrite H1 in H2. inversion H2; subst. reflexivity.
 Qed.
 
-(* one-read rejection implies rejection of every segmentation with clean boundaries *)
+(* one-read rejection implies rejection of every segmentation with safe boundaries *)
 Theorem rseg_oneshot_reject cfg segs s acc lo s1 acc1 e :
-  rwf s -> segs <> [] -> rboundaries_clean cfg s segs acc = true ->
+  rwf s -> segs <> [] -> rboundaries_safe cfg s segs acc = true ->
   rrun_segs cfg s [concat segs] acc lo = (s1, acc1, OErr e) ->
   forall s2 acc2 r2, rrun_segs cfg s segs acc lo = (s2, acc2, r2) -> forall l, r2 <> OOk l.
 Proof.
@@ -516,4 +554,84 @@ Proof.
   - intros p Ep. unfold rpwf in H2. rewrite Ep in H2. unfold rwfp, rwfc in H2.
     destruct (rpk p) as [rem|c|]; [assumption| |assumption].
     destruct c; try assumption; now apply find_lf_none_has.
+Qed.
+
+(* ------------------------------------------------------------------ rejected runs *)
+(* the reads a segmented run consumes: up to and including the first one that does not return *)
+Fixpoint rconsumed (cfg : rcfg) (s : rst) (segs : list bytes) (a : racc) : list bytes :=
+  match segs with
+  | [] => []
+  | d :: segs' =>
+    match rfeed cfg s d a with
+    | (s', a', OOk _) => d :: rconsumed cfg s' segs' a'
+    | _ => [d]
+    end
+  end.
+
+(* at every read boundary followed by a read: the buffered chunk line passes the length re-check and
+   the bytes consumed after it are read the same way as without the boundary *)
+Fixpoint rboundaries_ok (cfg : rcfg) (s : rst) (segs : list bytes) (a : racc) : bool :=
+  match segs with
+  | [] => true
+  | d :: segs' =>
+    match rfeed cfg s d a with
+    | (s', a', OOk _) =>
+      match segs' with
+      | [] => true
+      | _ => rtail_ok (c_lim cfg) s' && rresume_st s' (concat (rconsumed cfg s' segs' a'))
+             && rboundaries_ok cfg s' segs' a'
+      end
+    | _ => true
+    end
+  end.
+
+Definition rlift (lo : bytes) (x : rfres) : rfres := let '(s, a, r) := x in (s, a, rprepend lo r).
+
+Lemma rrun_segs_single cfg s d a lo : rrun_segs cfg s [d] a lo = rlift lo (rfeed cfg s d a).
+Proof. cbn [rrun_segs]. destruct (rfeed cfg s d a) as [[s' a'] r]. destruct r; reflexivity. Qed.
+
+Lemma robs_lift lo x y : robs x = robs y -> robs (rlift lo x) = robs (rlift lo y).
+Proof.
+  destruct x as [[s1 a1] r1], y as [[s2 a2] r2]. cbn.
+  destruct r1, r2; intro H; inversion H; subst; reflexivity.
+Qed.
+
+Lemma rlift_lift lo l1 x : rlift lo (rlift l1 x) = rlift (lo ++ l1) x.
+Proof. destruct x as [[s a] r]. destruct r; cbn; try reflexivity. now rewrite app_assoc. Qed.
+
+Lemma rconsumed_cons cfg s d segs a :
+  rconsumed cfg s (d :: segs) a =
+  match rfeed cfg s d a with
+  | (s', a', OOk _) => d :: rconsumed cfg s' segs a'
+  | _ => [d]
+  end.
+Proof. reflexivity. Qed.
+
+Lemma rrun_segs_consumed_cons : forall segs cfg s d acc lo,
+  rwf s -> rboundaries_ok cfg s (d :: segs) acc = true ->
+  robs (rrun_segs cfg s (d :: segs) acc lo) =
+  robs (rrun_segs cfg s [concat (rconsumed cfg s (d :: segs) acc)] acc lo).
+Proof.
+  induction segs as [|e segs IH]; intros cfg s d acc lo Hw Hb.
+  - cbn [rconsumed]. destruct (rfeed cfg s d acc) as [[s1 a1] r1] eqn:E1.
+    destruct r1; cbn [concat]; rewrite app_nil_r; reflexivity.
+  - rewrite rconsumed_cons. cbn [rboundaries_ok] in Hb. rewrite rrun_segs_cons.
+    destruct (rfeed cfg s d acc) as [[s1 a1] r1] eqn:E1.
+    destruct r1 as [l1|]; try (cbn [concat]; rewrite app_nil_r, rrun_segs_single, E1; reflexivity).
+    apply andb_true_iff in Hb as [Hb Hb2]. apply andb_true_iff in Hb as [Hok Hsafe].
+    pose proof (rfeed_wf _ _ _ _ _ _ _ Hw E1) as Hw1.
+    rewrite (IH cfg s1 e a1 (lo ++ l1) Hw1 Hb2).
+    rewrite concat_cons, !rrun_segs_single.
+    rewrite <- rlift_lift. apply robs_lift. symmetry.
+    exact (rfeed_split cfg s d _ acc s1 a1 l1 Hw E1 Hok Hsafe).
+Qed.
+
+(* the segmented run - normal or rejected - is observably (same exception class, same messages with
+   the same body bytes and marks) the one-read run of the bytes it consumed *)
+Theorem rseg_consumed_obs cfg segs s acc lo :
+  rwf s -> segs <> [] -> rboundaries_ok cfg s segs acc = true ->
+  robs (rrun_segs cfg s segs acc lo) =
+  robs (rrun_segs cfg s [concat (rconsumed cfg s segs acc)] acc lo).
+Proof.
+  intros Hw Hn Hb. destruct segs as [|d segs]; [congruence|]. now apply rrun_segs_consumed_cons.
 Qed.
